@@ -197,7 +197,7 @@ Definition Write (rb : ring) (p : list Z) : outcome (ring * (Z * err)) :=
 Definition WriteString := Write.
 
 Definition WriteByte (rb : ring) (c : Z) : outcome (ring * err) :=
-  obind (if Available rb <? 1 then grow rb 1 else Ret rb) (fun rb =>
+  obind (if Available rb <? 1 then grow rb (size rb + 1) else Ret rb) (fun rb =>
   (* rb.buf[rb.w] = c : index check 0 <= w < len(buf) *)
   obind (copy_at (buf rb) (w rb) (w rb + 1) [c]) (fun '(b, _) =>
   let rb := set_w (set_buf rb b) (w rb + 1) in
@@ -255,12 +255,15 @@ Definition rf_once (second : bool) (resp : Z * err) (src : list Z) (rb : ring) (
       let '(d, src', e) := reader_read src resp plen in
       obind (copy_at (buf rb) (w rb) (zlen (buf rb)) d) (fun '(b, m) =>
       obind (gorem (w rb + m) (size rb)) (fun w' =>
-      let rb := set_w (set_nonempty (set_buf rb b)) w' in
+      let rb := set_buf rb b in
+      let rb := if m >? 0 then set_nonempty rb else rb in
+      let rb := set_w rb w' in
       let n := n + m in
       let offered := offered ++ [plen] in
       match e with
       | EEof => Ret (RFDone rb src' n ENil offered)
-      | ENil => Ret (RFCont rb src' n true offered)
+      | ENil => (* if rb.w != 0 { continue } : the tail is not full yet *)
+          Ret (RFCont rb src' n (w rb =? 0) offered)
       | _ => Ret (RFDone rb src' n e offered)
       end))
     else
@@ -269,7 +272,9 @@ Definition rf_once (second : bool) (resp : Z * err) (src : list Z) (rb : ring) (
       let '(d, src', e) := reader_read src resp plen in
       obind (copy_at (buf rb) (w rb) (r rb) d) (fun '(b, m) =>
       obind (gorem (w rb + m) (size rb)) (fun w' =>
-      let rb := set_w (set_nonempty (set_buf rb b)) w' in
+      let rb := set_buf rb b in
+      let rb := if m >? 0 then set_nonempty rb else rb in
+      let rb := set_w rb w' in
       let n := n + m in
       let offered := offered ++ [plen] in
       match e with
@@ -335,7 +340,7 @@ Definition WriteTo (rb : ring) (script : wscript) : outcome (ring * wt_out) :=
     let m := zlen acc in
     obind (gorem (r rb + m) (size rb)) (fun r' =>
     let rb := set_r rb r' in
-    let rb := if r rb =? w rb then Reset rb else rb in
+    let rb := if m =? n then Reset rb else rb in
     if negb (is_nil e) then Ret (rb, mkWtOut m e acc) else
     if negb (is_empty rb) then Ret (rb, mkWtOut m EShort acc) else
     Ret (rb, mkWtOut m ENil acc)))
